@@ -24,7 +24,7 @@ no other handle, no operation holding a clone, no other closer. -/
 theorem release_only_when_unique (b : Bool) (evs : List Ev) (s s' : St) (e : Ev)
     (h : run (init b) evs = some s) (hs : step s e = some s') (hr : s'.released = s.released + 1) :
     s.count = 1 ∧ refs s.actors = 1 ∧ refs s'.actors = 0 ∧
-      ∀ i r, s'.actors[i]? = some r → r.holds = false := by
+      ∀ (i : Nat) (r : Role), s'.actors[i]? = some r → r.holds = false := by
   have hi := inv_run (inv_init b) h
   have hi' := inv_step hi hs
   have h1 : s.count = 1 := by
@@ -64,6 +64,7 @@ theorem released_at_quiescence (b : Bool) (evs : List Ev) (s : St) (h : run (ini
 example : ∃ s, run (init false) [.clone 0, .opStart 0, .take 0, .poll 0, .drop 1, .drop 2, .poll 0] = some s ∧
     s.released = 1 ∧ s.delivered = 1 ∧ s.wakes = 1 ∧ s.quiescent := by
   refine ⟨_, rfl, ?_⟩
+  unfold St.quiescent
   decide
 
 example : ∃ s, run (init true) [.clone 0, .take 0, .pSwap 0, .pTry1 0, .dropCheck 1, .pReg 0, .dropDec 1, .pTry2 0] = some s ∧
